@@ -13,8 +13,11 @@ CONSTANTS
   UseFollower = TRUE
   UseBounded = TRUE
   C0 = "c1"
+  UseRace = FALSE
+  MaxElect = 0
+  StrandedKnown = TRUE
   UseBad = TRUE
-INVARIANTS TypeOK C13_OneActive ActiveRegistered RegOK
+INVARIANTS TypeOK MC_OneActive ActiveRegistered RegOK
 PROPERTIES StepsOK
 VIEW MCView
 CHECK_DEADLOCK FALSE
